@@ -1,38 +1,56 @@
 (** Property C06 — foreign keys are pure substitution: SOUNDNESS theorems.
-    Stage 1: round trip of sources containing (argument-less) references.
+    Stage 1: round trip of sources containing references, with and without arguments.
     Stage 2: a successful resolution denotes the inlining semantics [inline]; the cycle stack is
     unobservable; the driver's result does not depend on the visiting order; on the parses of printed
-    sources [inline] is the source-level semantics [xdenote].
+    sources [inline] is the source-level semantics [xdenote] (the words of the property).
     This file holds only property theorems (closed by [exact]), statements and examples. *)
 From Coq Require Import List NArith Bool Permutation String Ascii.
 Import ListNotations.
 From LI Require Import Base.StrOps Base.StrLemmas Parser.Parse Parser.Json Parser.Reduce Parser.ReduceProofs Parser.ParseCheck
   Parser.Foreign Parser.ForeignProofs Parser.ForeignCheck
-  Parser.RoundTripRef1 Parser.RoundTripRef2 Parser.RoundTripRef3
-  Parser.ForeignSound Parser.ForeignStack Parser.ForeignSound2 Parser.ForeignSound3 Parser.ForeignFull.
+  Parser.RoundTripRef1 Parser.RoundTripRef2 Parser.RoundTripRef3 Parser.RoundTripRef4
+  Parser.ForeignSound Parser.ForeignStack Parser.ForeignSound2 Parser.ForeignFull Parser.ForeignSound4 Parser.ForeignSound5
+  Parser.ForeignSound3 Parser.ForeignSound6.
 
 (** * Stage 1 — round trip for sources with references
-    For every identifier oracle and JSON oracle and every well-formed source made of text (no '<', '{',
-    '$'), {{ var[, formatter] }}, components nested to any depth, and references `$t( ns : a . b )`
-    (every identifier padded with any whitespace) at any depth: ParsedValue::new on the printed source
-    succeeds, its pieces are the source's pieces (a reference is the piece [PcForeign ns path []]), and
-    the value holds a foreign key exactly when the source holds a reference.  In particular
-    `<b>$t(k)</b>` is a component around a reference, `$t(k)<b>x</b>` is a reference then a component. *)
+    Sources ([ritem], RoundTripRef1.v): text (no '<', '{', '$'), {{ var[, formatter] }}, components
+    nested to any depth, references `$t( ns : a . b )` (every identifier padded with any whitespace) and
+    references with arguments `$t(ns:a.b, {"k": "string", "n": 3, "b": true, ...})` (canonical spacing in the
+    object; distinct identifier keys; a string holds text / variables / components / argument-less
+    references, with no quote, backslash, control character, and no '}' in its text; literals are booleans
+    and the integers of the u64 / negative i64 ranges), at any depth.
+    For every identifier oracle: ParsedValue::new on the printed source succeeds, its pieces are the
+    source's pieces (a reference is the piece [PcForeign ns path args], args in the parser's key-sorted
+    map), and the value holds a foreign key exactly when the source holds a reference.  In particular
+    `<b>$t(k)</b>` is a component around a reference, `$t(k)<b>x</b>` a reference then a component.
+    The JSON oracle is arbitrary when no reference carries arguments; otherwise it must read a printed
+    argument object as the sorted map of its strings ([json_ok]) ... *)
 Theorem C06b_roundtrip_ref : forall (idc : str -> idres) (json_args : str -> res (list (str * jarg))) (items : list ritem),
+  (has_refa_list items = false \/ json_ok idc json_args) ->
   ritems_wfb idc items = true ->
   exists v, parse_top idc json_args true (rprint_list items) = Ok v
             /\ pieces v = rdenote_list items /\ no_foreign v = negb (has_ref_list items).
 Proof. exact roundtrip_ref_pieces. Qed.
+(** ... which the JSON reader model of Parser/Json.v does, *)
+Theorem C06b_json_model_ok : forall idc, json_ok idc json_args_model.
+Proof. exact json_model_ok. Qed.
+(** ... so that with the model no hypothesis is left. *)
+Theorem C06b_roundtrip_ref_model : forall (idc : str -> idres) (items : list ritem),
+  ritems_wfb idc items = true ->
+  exists v, parse_top idc json_args_model true (rprint_list items) = Ok v
+            /\ pieces v = rdenote_list items /\ no_foreign v = negb (has_ref_list items).
+Proof. exact roundtrip_ref_model_pieces. Qed.
 
-(** ... with the exact shape of the value (right-nested three-element blocs) *)
+(** the exact shape of the value (right-nested three-element blocs, sorted argument maps) *)
 Theorem C06b_roundtrip_ref_shape : forall (idc : str -> idres) (json_args : str -> res (list (str * jarg))) (items : list ritem),
+  (has_refa_list items = false \/ json_ok idc json_args) ->
   ritems_wfb idc items = true ->
   exists v, parse_top idc json_args true (rprint_list items) = Ok v /\ Rep v items.
 Proof. exact roundtrip_ref_top. Qed.
 
 (** * Stage 2 (i) — a successful resolution denotes the inlining semantics
-    every project, locale, stack, fuel and value (references WITH arguments included): the pieces of
-    the resolved value are [inline] of the value, which knows no stack. *)
+    every project, locale, stack, fuel and value (any arguments): the pieces of the resolved value are
+    [inline] of the value, which knows no stack. *)
 Theorem C06b_resolve_inline : forall vals dflt inherits fuel stack L v r,
   resolve vals dflt inherits fuel stack L v = Ok r ->
   exists d, inline vals dflt inherits fuel L v = Some d /\ pc_norm d = pieces r.
@@ -72,31 +90,84 @@ Theorem C06b_result_unique : forall run reg reg' lv ents ents',
   drive run reg lv = Ok ents -> drive run reg' lv = Ok ents' -> ents = ents'.
 Proof. exact drive_result_unique. Qed.
 
-(** * Stage 2 (iv) — [inline] on parsed printed sources is the source-level semantics
-    Scope: argument-less references, variables without formatter.  [proj_rel]: every value of the
-    project is the parse of its printed source, nulls are explicit defaults, groups / absent keys have
-    no source. *)
-Theorem C06b_inline_xdenote : forall idc json_args vals dflt inherits src_of,
-  proj_rel idc json_args vals src_of ->
+(** * Stage 2 (iv) — [inline] is the source-level semantics
+    [XRep v items] (ForeignSound4.v): the shape of the value the parser builds for a source of the full
+    AST [xitem] of Foreign.v (arguments in a key-sorted map, every string argument parsed again).  On
+    every project whose values have the shape of their sources, [inline] is [xdenote]: argument maps in
+    BTreeMap order against arguments in source order, arguments inlined in the locale the target was
+    found in (inherits walk included), substitution through chains of references. *)
+Theorem C06b_inline_xdenote_args : forall vals dflt inherits src,
+  xproj_rel vals src ->
   forall f L v items d,
-  Rep v items -> forallb plain items = true -> inline vals dflt inherits f L v = Some d ->
+  XRep v items -> inline vals dflt inherits f L v = Some d ->
+  exists d', xdenote src dflt inherits f L items = Some d' /\ pc_norm d' = pc_norm d.
+Proof. exact inline_xdenote_args. Qed.
+
+Theorem C06b_final_value_xdenote_args : forall vals dflt inherits src,
+  xproj_rel vals src ->
+  forall ns L path items v r',
+  src L (ns, path) = Some (Some items) -> get_value_at vals L (ns, path) = Some (NVal v) ->
+  final_value vals dflt inherits ns L path (NVal v) = Ok (Some r') ->
+  (exists d, xdenote src dflt inherits 200 L items = Some d /\ pieces r' = pc_norm d) /\
+  (forall fuel d, xdenote src dflt inherits fuel L items = Some d -> pieces r' = pc_norm d).
+Proof. exact final_value_xdenote_args. Qed.
+
+(** the parser's value for a printed source ([Rep], stage 1) has that shape: sources of stage 1 whose
+    variables carry no formatter (the AST [xitem] has none) *)
+Theorem C06b_Rep_XRep : forall idc v items, Rep v items ->
+  ritems_wfb idc items = true -> forallb plain items = true -> XRep v (map to_x items).
+Proof. exact Rep_XRep. Qed.
+
+(** hence, on projects whose values are the parses of their printed sources ([proj_rel]) *)
+Theorem C06b_inline_xdenote : forall idc json_args vals dflt inherits src_of,
+  proj_rel idc json_args vals src_of -> json_or_noargs idc json_args src_of ->
+  forall f L v items d,
+  Rep v items -> ritems_wfb idc items = true -> forallb plain items = true -> inline vals dflt inherits f L v = Some d ->
   exists d', xdenote (xsrc src_of) dflt inherits f L (map to_x items) = Some d' /\ pc_norm d' = pc_norm d.
 Proof. exact inline_xdenote. Qed.
 
-(** end to end, for every project compiled from a tree of sources: the final value of a key denotes
-    the source-level inlining semantics of its source, at every fuel at which that semantics is defined
-    (this is the clause [spec_C06] evaluates per key with fuel 40) *)
+(** * end to end
+    for every project compiled from a tree of sources (every leaf = the parse of its printed source):
+    the final value of a key denotes the source-level inlining semantics of its source, at every fuel
+    at which that semantics is defined (the clause [spec_C06] evaluates per key with fuel 40).
+    Restriction w.r.t. [C06b_sound_statement]: the sources are those of stage 1 without formatters;
+    any JSON oracle satisfying [json_ok], or any oracle at all when no reference of the project carries
+    arguments. *)
 Theorem C06b_sound_partial : forall idc json_args sv vals dflt inherits ns L path items,
+  json_or_noargs idc json_args (src_of_tree sv) ->
   compile idc json_args sv = Some vals -> sget_value_at sv L (ns, path) = Some (SVal items) ->
   exists v, parse_top idc json_args true (rprint_list items) = Ok v /\ get_value_at vals L (ns, path) = Some (NVal v) /\
     forall r', final_value vals dflt inherits ns L path (NVal v) = Ok (Some r') ->
       (exists d, xdenote (xsrc (src_of_tree sv)) dflt inherits 200 L (map to_x items) = Some d /\ pieces r' = pc_norm d) /\
       (forall fuel d, xdenote (xsrc (src_of_tree sv)) dflt inherits fuel L (map to_x items) = Some d -> pieces r' = pc_norm d).
 Proof. exact compiled_final_value_sound. Qed.
+(** with the JSON reader model *)
+Theorem C06b_sound_partial_model : forall idc sv vals dflt inherits ns L path items,
+  compile idc json_args_model sv = Some vals -> sget_value_at sv L (ns, path) = Some (SVal items) ->
+  exists v, parse_top idc json_args_model true (rprint_list items) = Ok v /\ get_value_at vals L (ns, path) = Some (NVal v) /\
+    forall r', final_value vals dflt inherits ns L path (NVal v) = Ok (Some r') ->
+      (exists d, xdenote (xsrc (src_of_tree sv)) dflt inherits 200 L (map to_x items) = Some d /\ pieces r' = pc_norm d) /\
+      (forall fuel d, xdenote (xsrc (src_of_tree sv)) dflt inherits fuel L (map to_x items) = Some d -> pieces r' = pc_norm d).
+Proof. exact compiled_final_value_sound_model. Qed.
 
-(** the FULL statement (references with arguments, canonical printer [xprint] of ForeignFull.v) is
-    not proved: [C06b_sound_partial] is its restriction to argument-less references (with arbitrary
-    whitespace padding, which the full statement's canonical printer does not even exercise). *)
+(** What is NOT proved: that ParsedValue::new builds the shape [XRep] for EVERY printed source of the
+    full AST (canonical printer [xprint], well-formedness [xitems_wf] of ForeignFull.v).  Stage 1 proves
+    it for the sources above ([C06b_roundtrip_ref_shape] + [C06b_Rep_XRep]), see [C06b_parse_args_partial]. *)
+Definition C06b_parse_args_statement : Prop :=
+  forall idc items v, xitems_wf idc items = true ->
+  parse_top idc json_args_model true (xprint_list items) = Ok v -> XRep v items.
+
+(** the proved part of it: every source of the full AST that is the image of a well-formed stage-1 source
+    without padding and formatter ([canonical]), on which the two printers agree *)
+Theorem C06b_xprint_canonical : forall items, forallb canonical items = true -> xprint_list (map to_x items) = rprint_list items.
+Proof. exact xprint_canonical. Qed.
+Theorem C06b_parse_args_partial : forall idc items v,
+  ritems_wfb idc items = true -> forallb plain items = true -> forallb canonical items = true ->
+  parse_top idc json_args_model true (xprint_list (map to_x items)) = Ok v -> XRep v (map to_x items).
+Proof. exact parse_args_partial. Qed.
+
+(** the FULL soundness statement: every final value of a project whose values are the parses of printed
+    well-formed sources of the full AST denotes the source-level inlining semantics *)
 Definition C06b_sound_statement : Prop :=
   forall idc vals dflt inherits (src : str -> keypath -> option (option (list xitem))),
   (forall L p, match src L p with
@@ -110,15 +181,32 @@ Definition C06b_sound_statement : Prop :=
   final_value vals dflt inherits ns L path (NVal v) = Ok (Some r') ->
   forall fuel d, xdenote src dflt inherits fuel L items = Some d -> pieces r' = pc_norm d.
 
+(** it is reduced to the parser statement *)
+Theorem C06b_sound_from_parse_args : C06b_parse_args_statement -> C06b_sound_statement.
+Proof. exact sound_from_parse_args. Qed.
+
 (** * non-vacuity: a concrete project (ASCII identifier oracle, the JSON reader model)
     en (default):  a = "Hello {{x}}"   b = "<b>$t( a )</b>!"   c = "$t(b) / $t(g.h)"   g.h = "deep"
+                   d = "$t(a, {"x": "{{y}} & $t(g.h)"})."
     fr:            a = "Bonjour"       g.h = null
     fr-CA (inherits fr):  a = null     c = "$t(a)?" *)
 Definition t (x : string) : str := map (fun a => N.of_nat (nat_of_ascii a)) (list_ascii_of_string x).
+Definition ex_d : list ritem :=
+  [RRefA None [([], t "a", [])]
+     [(t "x", RAStr [AVar [] (t "y") [] None; AText (t " & "); ARef None [([], t "g", []); ([], t "h", [])]])];
+   RText (t ".")].
+(** e = "$t(f, {"n": 3, "ok": true, "x": "<i>$t(g.h)</i>"})"   f = "{{n}}/{{ok}}/{{x}}" *)
+Definition ex_e : list ritem :=
+  [RRefA None [([], t "f", [])]
+     [(t "n", RALit (LUnsigned 3)); (t "ok", RALit (LBool true));
+      (t "x", RAStr [AComp [] (t "i") [] [ARef None [([], t "g", []); ([], t "h", [])]] [] [] []])]].
+Definition ex_f : list ritem :=
+  [RVar [] (t "n") [] None; RText (t "/"); RVar [] (t "ok") [] None; RText (t "/"); RVar [] (t "x") [] None].
 Definition ex_tree : svalues := SVLocales
   [ (t "en", [ (t "a", SVal [RText (t "Hello "); RVar [] (t "x") [] None]);
                (t "b", SVal [RComp [] (t "b") [] [RRef None [([32%N], t "a", [32%N])]] [] [] []; RText (t "!")]);
                (t "c", SVal [RRef None [([], t "b", [])]; RText (t " / "); RRef None [([], t "g", []); ([], t "h", [])]]);
+               (t "d", SVal ex_d); (t "e", SVal ex_e); (t "f", SVal ex_f);
                (t "g", SSub [(t "h", SVal [RText (t "deep")])]) ]);
     (t "fr", [ (t "a", SVal [RText (t "Bonjour")]); (t "g", SSub [(t "h", SNull)]) ]);
     (t "fr-CA", [ (t "a", SNull); (t "c", SVal [RRef None [([], t "a", [])]; RText (t "?")]) ]) ].
@@ -141,17 +229,30 @@ Definition ex_xdenote (L : str) (path : list str) : option (list piece) :=
 
 Example C06b_ex_compiles : compile ident_check json_args_model ex_tree = Some ex_vals.
 Proof. vm_compute. reflexivity. Qed.
-(** the printed form of en.b and of en.c *)
+(** the printed form of en.b, en.c and en.d *)
 Example C06b_ex_printed :
   rprint_list [RComp [] (t "b") [] [RRef None [([32%N], t "a", [32%N])]] [] [] []; RText (t "!")] = t "<b>$t( a )</b>!"
-  /\ rprint_list [RRef None [([], t "b", [])]; RText (t " / "); RRef None [([], t "g", []); ([], t "h", [])]] = t "$t(b) / $t(g.h)".
-Proof. split; vm_compute; reflexivity. Qed.
+  /\ rprint_list [RRef None [([], t "b", [])]; RText (t " / "); RRef None [([], t "g", []); ([], t "h", [])]] = t "$t(b) / $t(g.h)"
+  /\ rprint_list ex_d = t "$t(a, {""x"": ""{{y}} & $t(g.h)""})."
+  /\ rprint_list ex_e = t "$t(f, {""n"": 3, ""ok"": true, ""x"": ""<i>$t(g.h)</i>""})".
+Proof. repeat split; vm_compute; reflexivity. Qed.
 (** a chain through a component and a sub-key: en.c = <b>Hello {{x}}</b>! / deep *)
 Example C06b_ex_chain :
   ex_pieces (t "en") [t "c"]
   = Some [PcComp (t "comp_b") [PcText (t "Hello "); PcVar (t "var_x") FNone]; PcText (t "! / deep")]
   /\ ex_xdenote (t "en") [t "c"] = ex_pieces (t "en") [t "c"].
 Proof. split; vm_compute; reflexivity. Qed.
+(** an argument holding a variable and a reference: en.d = Hello {{y}} & deep. *)
+Example C06b_ex_args :
+  ex_pieces (t "en") [t "d"] = Some [PcText (t "Hello "); PcVar (t "var_y") FNone; PcText (t " & deep.")]
+  /\ ex_xdenote (t "en") [t "d"] = ex_pieces (t "en") [t "d"].
+Proof. split; vm_compute; reflexivity. Qed.
+(** literal arguments and a component inside a string argument: en.e = 3/true/<i>deep</i> *)
+Example C06b_ex_lits :
+  ex_pieces (t "en") [t "e"] = Some [PcText (t "3/true/"); PcComp (t "comp_i") [PcText (t "deep")]]
+  /\ ex_xdenote (t "en") [t "e"] = ex_pieces (t "en") [t "e"]
+  /\ ritems_wfb ident_check ex_e = true /\ forallb canonical ex_e = true.
+Proof. repeat split; vm_compute; reflexivity. Qed.
 (** an inherits walk: fr-CA.a is null, fr-CA inherits fr, so fr-CA.c = Bonjour? *)
 Example C06b_ex_walk :
   ex_pieces (t "fr-CA") [t "c"] = Some [PcText (t "Bonjour?")]
@@ -162,13 +263,53 @@ Example C06b_ex_drive :
   let run := run_of ex_vals (t "en") ex_inherits in
   let lv := all_leaves ex_vals in
   let reg := filter (fun '(_, _, _, n) => node_has_foreign n) lv in
-  List.length reg = 3%nat
-  /\ match drive run (sort_reg reg) lv with Ok ents => List.length ents = 8%nat | _ => False end
+  List.length reg = 5%nat
+  /\ match drive run (sort_reg reg) lv with Ok ents => List.length ents = 11%nat | _ => False end
   /\ drive run (sort_reg reg) lv = drive run (rev reg) lv.
 Proof. vm_compute. repeat split. Qed.
 (** the hypotheses of the stage-1 theorem hold of the sources above *)
 Example C06b_ex_wf :
   ritems_wfb ident_check [RComp [] (t "b") [] [RRef None [([32%N], t "a", [32%N])]] [] [] []; RText (t "!")] = true
   /\ has_ref_list [RComp [] (t "b") [] [RRef None [([32%N], t "a", [32%N])]] [] [] []; RText (t "!")] = true
-  /\ ritems_wfb ident_check [RRef (Some ([], t "ns", [32%N])) [([32%N], t "k-1", []); ([], t "sub", [9%N])]] = true.
+  /\ ritems_wfb ident_check [RRef (Some ([], t "ns", [32%N])) [([32%N], t "k-1", []); ([], t "sub", [9%N])]] = true
+  /\ ritems_wfb ident_check ex_d = true /\ has_refa_list ex_d = true /\ forallb plain ex_d = true
+  /\ forallb canonical ex_d = true /\ xprint_list (map to_x ex_d) = rprint_list ex_d.
 Proof. repeat split; vm_compute; reflexivity. Qed.
+
+(** * non-vacuity of the [XRep] theorems beyond stage 1: k1 = $t(k2, {"x": "A"})   k2 = $t(k3)   k3 = [{{x}}]
+    (the chain through which the pre-fix code lost the argument, see C06_old_refuted) *)
+Definition ax_k1 : list xitem := [XRef None [t "k2"] [(t "x", XAStr [XText (t "A")])]].
+Definition ax_k2 : list xitem := [XRef None [t "k3"] []].
+Definition ax_k3 : list xitem := [XText (t "["); XVar (t "x"); XText (t "]")].
+Definition ax_parse (l : list xitem) : pv := match model_parse (xprint_list l) with Ok v => v | _ => PLit (LStr []) end.
+Definition ax_vals : values :=
+  VLocales [(t "en", [(t "k1", NVal (ax_parse ax_k1)); (t "k2", NVal (ax_parse ax_k2)); (t "k3", NVal (ax_parse ax_k3))])].
+Definition ax_src (L : str) (p : keypath) : option (option (list xitem)) :=
+  if str_eqb L (t "en") then
+    match p with
+    | (None, [k]) => if str_eqb k (t "k1") then Some (Some ax_k1) else if str_eqb k (t "k2") then Some (Some ax_k2)
+                     else if str_eqb k (t "k3") then Some (Some ax_k3) else None
+    | _ => None
+    end
+  else None.
+Example C06b_ex_args_printed : xprint_list ax_k1 = t "$t(k2, {""x"": ""A""})" /\ xitems_wf ident_check ax_k1 = true.
+Proof. split; vm_compute; reflexivity. Qed.
+(** the parser statement holds of this source: the parse has the shape [XRep] *)
+Example C06b_ex_args_shape : exists v, model_parse (xprint_list ax_k1) = Ok v /\ XRep v ax_k1.
+Proof.
+  eexists. split; [vm_compute; reflexivity|].
+  refine (XRep_ref _ _ [] None _ _ [(t "x", XAStr [XText (t "A")])] _ [] _ _ _ _ _).
+  - exact (XRep_text [] eq_refl).
+  - exact (XRep_text [] eq_refl).
+  - refine (AR_str (t "x") _ [XText (t "A")] [] [] _ AR_nil). exact (XRep_text [XText (t "A")] eq_refl).
+  - apply Permutation_refl.
+  - repeat constructor. intros [].
+Qed.
+(** and the final value of k1 is the source-level semantics: [A] *)
+Example C06b_ex_args_final :
+  match final_value ax_vals (t "en") [] None (t "en") [t "k1"] (NVal (ax_parse ax_k1)) with
+  | Ok (Some r) => Some (pieces r)
+  | _ => None
+  end = Some [PcText (t "[A]")]
+  /\ option_map (@pc_norm) (xdenote ax_src (t "en") [] 40 (t "en") ax_k1) = Some [PcText (t "[A]")].
+Proof. split; vm_compute; reflexivity. Qed.
